@@ -633,6 +633,33 @@ func (st *Store) bvBin(op Op, a, b *Term) *Term {
 		if m := lowMaskBits(b); m > 0 && m < w {
 			return st.Zext(st.Extract(a, m-1, 0), w-m)
 		}
+	case OBVSDiv:
+		// signed division by 2^k (rounding toward zero) as bias + arithmetic shift: far cheaper to bit-blast
+		if b.IsConst() && b.Val.Sign() > 0 && b.Val.BitLen() < w {
+			if k := int(b.Val.TrailingZeroBits()); k >= 1 && b.Val.BitLen()-1 == k {
+				sign := st.bvBin(OBVAshr, a, st.BVu(uint64(w-1), w))
+				bias := st.bvBin(OBVLshr, sign, st.BVu(uint64(w-k), w))
+				return st.bvBin(OBVAshr, st.bvBin(OBVAdd, a, bias), st.BVu(uint64(k), w))
+			}
+		}
+		if b.IsConst() && b.Val.Cmp(bigOne) == 0 {
+			return a
+		}
+	case OBVUDiv:
+		if b.IsConst() && b.Val.Sign() > 0 {
+			if k := int(b.Val.TrailingZeroBits()); b.Val.BitLen()-1 == k {
+				return st.bvBin(OBVLshr, a, st.BVu(uint64(k), w))
+			}
+		}
+	case OBVURem:
+		if b.IsConst() && b.Val.Sign() > 0 {
+			if k := int(b.Val.TrailingZeroBits()); b.Val.BitLen()-1 == k {
+				if k == 0 {
+					return st.BVu(0, w)
+				}
+				return st.bvBin(OBVAnd, a, st.BVConst(new(big.Int).Sub(b.Val, bigOne), w))
+			}
+		}
 	case OBVShl, OBVLshr, OBVAshr:
 		if isZero(b) {
 			return a
